@@ -1,3 +1,5 @@
 import PydapModel.Generated.Tables
+import PydapModel.HandlerSteps
+import PydapModel.Sched
 import PydapModel.Sexp
 import PydapModel.Slice
